@@ -130,10 +130,13 @@ def PStruct.kid? (s : PStruct α) (f : String) : Option (PField α) := s.kids.fi
 
 /-- `iter_field_lists`: the field's lists chunk by chunk (`none` for a null list),
     struct validity is not consulted. -/
+def iterOfChunk (f : String) (s : PStruct α) : R (List (Option (List α))) :=
+  match s.kid? f with
+  | some k => pure k.list.rows
+  | none => .error .keyError
+
 def NArr.iterFieldLists (c : PCol α) (f : String) : R (List (Option (List α))) := do
-  let per ← c.chunks.mapM fun s => match s.kid? f with
-    | some k => pure k.list.rows
-    | none => .error .keyError
+  let per ← c.chunks.mapM (iterOfChunk f)
   pure per.flatten
 
 /-- `__iter__` / `to_numpy`: every struct scalar converted to a table or the NA value. -/
